@@ -509,3 +509,35 @@ def k8(ctx):
 
 
 RULES.append(k8)
+
+
+@rule("MC", doc="must-call census: no function of this property's files has gained an early exit in front of work it always did (every crate-local call that lay on all paths to a normal return in the reviewed tree still does)")
+def mc(ctx):
+    C.must_call_census(ctx, ctx.lib(), ['src/explain/mod.rs', 'src/explain/proof.rs', 'src/explain/front.rs', 'src/explain/registry.rs', 'src/explain/wrapper/perm.rs', 'src/explain/wrapper/applied_id.rs', 'src/explain/wrapper/node.rs', 'src/explain/wrapper/contains.rs', 'src/egraph/union.rs', 'src/egraph/rebuild.rs', 'src/egraph/find.rs'])
+
+
+RULES.append(mc)
+
+
+@rule("K9", cfgs=EXPL, doc="an explanation is assembled from handles canonicalised AFTER the last change to the e-graph: no insertion (add_syn_expr ..) can run between a find and the use of its result")
+def k9(ctx):
+    crate = ctx.lib()
+    n = 0
+    for b in crate.fns():
+        if not (b.file or "").endswith("explain/mod.rs") or b.argc < 1 or not b.local_ty(1).startswith("&mut egraph::EGraph<"):
+            continue
+        finds = [c for c in b.calls if c.callee and c.callee.name in ("proven_find_applied_id", "find_applied_id", "proven_proven_find_applied_id", "proven_unionfind_get", "unionfind_get", "find_id") and not b.blocks[c.bb]["cleanup"]]
+        muts = [c for c in b.calls if c.callee and c.callee.target in crate.bodies and not b.blocks[c.bb]["cleanup"]
+                and crate.bodies[c.callee.target].argc >= 1 and crate.bodies[c.callee.target].local_ty(1).startswith("&mut egraph::EGraph<")]
+        if not finds or not muts:
+            continue
+        n += 1
+        for f in finds:
+            later = [m for m in muts if m.bb in b.reach(b.after(f.bb))]
+            ctx.check(not later, "no-mutation-after-find:%s:%s" % (C.fkey(b), f.callee.name), "in %s nothing changes the e-graph after %s" % (C.short(b.id), f.callee.name),
+                      "%s canonicalises a handle (%s) and then calls %s, which can change the e-graph (a term that is only present semantically gets a syntactic class and is merged by congruence — the old leader can die): the canonical handle is stale when the proof is assembled and the call panics for an equality that holds" % (C.short(b.id), f.callee.name, ", ".join(sorted({m.callee.name for m in later}))),
+                      where_of(b, f.bb))
+    ctx.floor("explanation entry points that insert and canonicalise", n, 1)
+
+
+RULES.append(k9)
